@@ -282,6 +282,24 @@ func nativeGlobal(ex *Exec, name string, t types.Type) (Value, bool) {
 		return PtrV{N: ex.newNode(ft)}, true
 	case "os.Args":
 		return ex.zero(t), true
+	case "net/netip.z0":
+		return ex.zero(t), true
+	case "net/netip.z4", "net/netip.z6noz":
+		// unique.Handle[addrDetail]{value *addrDetail}: two distinct canonical pointers (the only Addr.z values of
+		// addresses without a zone; zoned addresses go through unique.Make, which has no model)
+		st, ok := t.Underlying().(*types.Struct)
+		if !ok || st.NumFields() != 1 {
+			return nil, false
+		}
+		pt, ok := st.Field(0).Type().(*types.Pointer)
+		if !ok {
+			return nil, false
+		}
+		n := ex.newNode(pt.Elem())
+		if sn, ok := n.(*StructNode); ok && name == "net/netip.z6noz" && len(sn.F) >= 1 {
+			ex.storeNode(sn.F[0], BoolV{tf.True})
+		}
+		return StructV{F: []Value{PtrV{N: n}}}, true
 	case "io.Discard":
 		dt := ex.eng.namedType("io", "discard")
 		return IfaceV{T: dt, V: ex.zero(dt)}, true
